@@ -128,7 +128,7 @@ def GoodStep (c : Ctl) (st : StaleSet) (wp : WaitSet) : Op → Prop
   | .delSvc ns name =>
       WF c ∧ ∀ o, findSvc c.svcs ns name = some o → SvcIrrelevant c o.host (some o) none
   | .pod v =>
-      WF c ∧ PodKeysOK c.pods ∧ NoPodAtUntargeted c ∧ PodIPStable c v ∧
+      WF c ∧ PodKeysOK c.pods ∧ NoPodAtUntargeted c ∧
       (v.phase ≠ "F" →
         WF { c with pods := upsertBy (fun x => x.ns = v.ns ∧ x.name = v.name) v c.pods } ∧
         PodKeysOK (upsertBy (fun x => x.ns = v.ns ∧ x.name = v.name) v c.pods) ∧
@@ -185,12 +185,11 @@ theorem noPodAt_removed (c c' : Ctl) (ns name : String) (hu : NoPodAtUntargeted 
 /-- a pod leaves the store: everything is kept, the slices that refer to it become stale -/
 theorem pod_removed_stable (c : Ctl) (st : StaleSet) (wp : WaitSet) (ns name : String) (evp o : Pod)
     (hfo : findPod c.pods ns name = some o) (hevp : evp.ns = ns ∧ evp.name = name)
-    (hs : Stable c st wp) (hwf : WF c) (hk : PodKeysOK c.pods) (hu : NoPodAtUntargeted c)
-    (hip : o.ip = "" ∨ evp.ip = "" ∨ evp.ip = o.ip) :
+    (hs : Stable c st wp) (hwf : WF c) (hk : PodKeysOK c.pods) (hu : NoPodAtUntargeted c) :
     Stable (runAll { c with pods := c.pods.filter (fun x => !(x.ns = ns ∧ x.name = name)) } [.podDel evp])
       (st ++ refsOf c ns name) wp := by
   have hst := runAll_one_st { c with pods := c.pods.filter (fun x => !(x.ns = ns ∧ x.name = name)) } (.podDel evp)
-  have hpc' := pod_removed_podCache c ns name evp o hfo hevp hs.pc hk hip
+  have hpc' := pod_removed_podCache c ns name evp o hfo hevp hs.pc hk
   have hnc := noCachedAddr_of_objects c hs.pc hu
   have hnc' := noCachedAddr_of_objects _ hpc' (noPodAt_removed c _ ns name hu hst)
   refine ⟨?_, hpc', pod_removed_sound c ns name evp hs.sound hwf, ?_⟩
@@ -364,7 +363,7 @@ theorem handlers_preserve_inv (c : Ctl) (st : StaleSet) (wp : WaitSet) (op : Op)
       simp only [Option.map, Option.some.injEq] at hstep
       rw [← hstep]; exact (runAll_one_st _ _).2
   | pod v =>
-    obtain ⟨hwf, hk, hu, hip, hrest⟩ := hgood
+    obtain ⟨hwf, hk, hu, hrest⟩ := hgood
     by_cases hph : v.phase = "F"
     · cases hfo : findPod c.pods v.ns v.name with
       | none => simp [stepC, hph, hfo] at hstep
@@ -374,20 +373,11 @@ theorem handlers_preserve_inv (c : Ctl) (st : StaleSet) (wp : WaitSet) (op : Op)
         have h1 : staleStep c st (.pod v) = st ++ refsOf c v.ns v.name := by simp [staleStep, hph, hfo]
         have h2 : waitStep c st wp (.pod v) = wp := by simp [waitStep, hph]
         rw [h1, h2]
-        apply pod_removed_stable c st wp v.ns v.name v o hfo ⟨rfl, rfl⟩ hs hwf hk hu
-        cases hip o hfo with
-        | inl h => exact Or.inl h
-        | inr h =>
-          cases h with
-          | inl h => exact Or.inr (Or.inl h)
-          | inr h =>
-            cases h with
-            | inl h => exact Or.inr (Or.inr h)
-            | inr h => exact absurd hph h.1
+        exact pod_removed_stable c st wp v.ns v.name v o hfo ⟨rfl, rfl⟩ hs hwf hk hu
     · obtain ⟨hwf1, hk1, hu1, hno, hg⟩ := hrest hph
       have h1 : staleStep c st (.pod v) = st := by simp [staleStep, hph]
       rw [h1]
-      have hpc' := pod_write_podCache c v c' hph hstep hs.pc hk hk1 hip
+      have hpc' := pod_write_podCache c v c' hph hstep hs.pc hk hk1
       have hst : SameSt { c with pods := upsertBy (fun x => x.ns = v.ns ∧ x.name = v.name) v c.pods } c' := by
         rw [stepC_pod c v hph, Option.some.injEq] at hstep
         rw [← hstep]
@@ -523,7 +513,7 @@ theorem handlers_preserve_inv (c : Ctl) (st : StaleSet) (wp : WaitSet) (op : Op)
       rw [h1, h2]
       have ho := List.find?_some hfo
       simp only [Bool.decide_and, Bool.and_eq_true, decide_eq_true_eq] at ho
-      exact pod_removed_stable c st wp ns name o o hfo ho hs hwf hk hu (Or.inr (Or.inr rfl))
+      exact pod_removed_stable c st wp ns name o o hfo ho hs hwf hk hu
   | node v =>
     simp only [stepC, Option.some.injEq] at hstep
     subst hstep
